@@ -100,9 +100,11 @@ Inductive op :=
 | OAwaitL (o : nat)                       (* co_await o (lvalue) *)
 | OAddSelf (o : nat)                      (* o << co_await self() *)
 | OSwap (o1 o2 : nat)                     (* std::swap(o1, o2), same type *)
+| OAddFail (o : nat) (h : Z)              (* sp << handle while the next operator new[] throws std::bad_alloc *)
+| OCreateThrow (o : nat) (t : bool) (v : Z) (l : list Z)   (* create_suspend_point(fn), fn readies l and then throws *)
 | OBad.
 
-(* observation: status (0 ok, 1 rejected), size after, value read after the op (const conversion; 0 for void objects),
+(* observation: status (0 ok, 1 rejected, 2 executed but std::bad_alloc came out: nothing changed), size after, value read after the op (const conversion; 0 for void objects),
    heap arrays allocated / freed, deque nodes allocated / freed, ids of the coroutines resumed during the op in order
    (0 = the awaiting coroutine itself continues) *)
 Record obs := mkObs { o_st : Z; o_size : Z; o_val : Z; o_cost : cost; o_qcost : cost; o_res : list Z }.
@@ -322,6 +324,33 @@ Definition step (coro : bool) (e : env) (x : op) : env * obs :=
       let pops := zlen pre + (if found then 1 else 0) in
       (mkEnv (objs e) post (qpush e + 1) (qpop e + pops),
        mkObs 0 0 0 (0,0) (node_cross (qpush e) 1, node_cross (qpop e) pops) (pre ++ (if found then [driver] else [])))
+  | OAddFail o h =>
+      (* add() (l.226-270) when the allocation it needs throws: `new Ptr[count*2]` is evaluated before anything is
+         stored or counted, so the object is unchanged and the caller still owns h.  No allocation needed: plain add. *)
+      if h <=? 0 then (e, rejected) else
+      match get (objs e) o with
+      | None => (e, rejected)
+      | Some s =>
+          if (if sp_flag s then sp_count s =? cap s else negb (sp_count s <? inline_count))
+          then (e, mkObs 2 (sp_count s) (val s) (0,0) (0,0) [])
+          else let '(s1, c) := sp_add s h in
+               (upd e (put (objs e) o (Some s1)), ok_obs (sp_count s1) (val s1) c [])
+      end
+  | OCreateThrow o t v l =>
+      (* create_suspend_point when fn throws after readying l: the exception passes through, nothing is collected.
+         Coroutine mode: l simply stays in the ready queue behind what was there.  Normal mode: the queue installed
+         around the call is flushed while the exception unwinds (trailer, coro_queue.h l.107-110): l is resumed now. *)
+      if negb (forallb (fun h => 0 <? h) l) then (e, rejected) else
+      match get (objs e) o with
+      | Some _ => (e, rejected)
+      | None =>
+          let k := zlen l in
+          if coro
+          then (mkEnv (objs e) (queue e ++ l) (qpush e + k) (qpop e),
+                mkObs 0 0 0 (0,0) (node_cross (qpush e) k, 0) [])
+          else (mkEnv (objs e) (queue e) (qpush e + k) (qpop e + k),
+                mkObs 0 0 0 (0,0) (node_cross (qpush e) k, node_cross (qpop e) k) l)
+      end
   | OBad => (e, rejected)
   end.
 
@@ -364,6 +393,8 @@ Definition decode0 (l : list Z) : op :=
   | [16; o] => OAwaitL (n o)
   | [17; o] => OAddSelf (n o)
   | [18; a; b] => OSwap (n a) (n b)
+  | [19; o; h] => OAddFail (n o) h
+  | 20 :: o :: t :: v :: l => if (t =? 0) || (t =? 1) then OCreateThrow (n o) (t =? 1) v l else OBad
   | _ => OBad
   end.
 
@@ -380,7 +411,8 @@ Definition sp_run (coro : bool) (ops : list (list Z)) : list (list Z) :=
 (* ready coroutines handed in by an accepted op (the awaiter's own handle is accounted separately) *)
 Definition handed_of (x : op) (ok : bool) : list Z :=
   if ok then match x with
-             | ONewH _ h _ => [h] | OAdd _ h => [h] | ONewVoidH _ h => [h] | OCreate _ _ _ l => l
+             | ONewH _ h _ => [h] | OAdd _ h => [h] | ONewVoidH _ h => [h] | OAddFail _ h => [h]
+             | OCreate _ _ _ l => l | OCreateThrow _ _ _ l => l
              | _ => [] end
   else [].
 
@@ -420,7 +452,7 @@ Definition vstep (vs : list (option vinfo)) (x : op) : list (option vinfo) * Z :
   | ONewV o v | ONewH o _ v => (put vs o (Some (true, v)), v)
   | ONewVoid o | ONewVoidH o _ => (put vs o (Some (false, 0)), 0)
   | OCreate o t v _ => (put vs o (Some (t, if t then v else 0)), if t then v else 0)
-  | OAdd o _ | OAddSelf o | OPop o | OClear o | ORead o _ | OAwaitL o | OMerge o _ => (vs, vget vs o)
+  | OAdd o _ | OAddFail o _ | OAddSelf o | OPop o | OClear o | ORead o _ | OAwaitL o | OMerge o _ => (vs, vget vs o)
   | OMoveCtor a b => let vs1 := put (put vs a (get vs b)) b (vmoved (get vs b)) in (vs1, vget vs1 a)
   | OMoveBase a _ v => (put vs a (Some (true, v)), v)
   | OMoveAssign a b =>
@@ -433,7 +465,7 @@ Definition vstep (vs : list (option vinfo)) (x : op) : list (option vinfo) * Z :
       else (vs, vget vs a)
   | ODestroy o => (put vs o None, vget vs o)
   | OAwait o => (put vs o (vmoved (get vs o)), vget vs o)
-  | OFlush | OBad => (vs, 0)
+  | OFlush | OCreateThrow _ _ _ _ | OBad => (vs, 0)
   end.
 
 Fixpoint vals_ok (vs : list (option vinfo)) (ops : list op) (obs : list (list Z)) : bool :=
